@@ -12,7 +12,7 @@ def dirOfJson (j : Json) : List (String × List UInt8) :=
 def dirSorted (d : List (String × List UInt8)) : List (String × List UInt8) :=
   (d.toArray.qsort (fun a b => a.1 < b.1)).toList
 
-def opFs : OpFn := fun _ inp out => do
+def opFs : OpFn := fun view inp out => do
   let stepsIn ← inp.getObjValAs? (List Json) "steps"
   let stepsOut ← out.getObjValAs? (List Json) "steps"
   let mut d : Fs.Dir := []
@@ -36,7 +36,7 @@ def opFs : OpFn := fun _ inp out => do
     d := d'
     if corr && (modelErr != implErr || modelSize != implSize || dirSorted d != implFiles) then
       corr := false
-      clause := s!"C15: step {i} ({op} {name}): after the operation the directory is not the abstract one (a write must leave exactly the bytes written in exactly that file)"
+      clause := s!"{if view == "" then "C15" else view}: step {i} ({op} {name}): after the operation the directory is not the abstract one (a write must leave exactly the bytes written in exactly that file)"
     i := i + 1
   pure { corr := corr, spec := corr, clause := clause, nontrivial := overwrites > 0, branch := s!"steps{stepsIn.length}" }
 
